@@ -34,12 +34,17 @@ func genPayload(r *vh.Rand, w *vh.LineWriter, next int, tier string) int {
 		ct := r.Intn(2)
 		block := []byte{}
 		if ct == 1 && len(cmd) > 0 {
-			max, ok := hooks.MaxEncodedLen(hooks.Snappy, uint64(len(cmd)))
-			if !ok {
+			okc := false
+			if p := vh.Catch(func() {
+				max, ok := hooks.MaxEncodedLen(hooks.Snappy, uint64(len(cmd)))
+				if ok {
+					dst := make([]byte, max)
+					block = dst[:hooks.CompressSnappyBlock(cmd, dst)]
+					okc = true
+				}
+			}); p != "" || !okc {
 				continue
 			}
-			dst := make([]byte, max)
-			block = dst[:hooks.CompressSnappyBlock(cmd, dst)]
 		}
 		w.Printf("%d PAY %d %s %s\n", next, ct, vh.Hex(cmd), vh.Hex(block))
 		next++
